@@ -3,7 +3,7 @@
 From Coq Require Import List Arith ZArith QArith Bool Lia Setoid.
 Import ListNotations.
 Require Import Base.C09_Poly Base.C09_PolyQ Model.C09_Elem Proofs.C09_ElemProofs Proofs.C09_ChainProofs.
-Require Import Gen.C09_T2 Gen.C09_Elements Dyn.C09Pull.
+Require Import Gen.C09_T2 Gen.C09_Elements Dyn.C09Pull Proofs.C09_PiolaProofs.
 
 Lemma elem_poly_len e : In e all_elements -> forall b, In b (e_basis e) -> forall p, In p (bfun_polys b) -> mono_len_le (e_dim e) p.
 Proof. intros He b Hb p Hp. exact (vars_ok_sound e (proj1 (Forall_forall _ _) all_vars_ok e He) b Hb p Hp). Qed.
@@ -157,4 +157,44 @@ Proof.
   - rewrite <- (E 0%nat ltac:(lia)). fold g0. transitivity (g0 * (B 0%nat 0%nat * J 0%nat 0%nat + B 0%nat 1%nat * J 1%nat 0%nat + B 0%nat 2%nat * J 2%nat 0%nat) + g1 * (B 1%nat 0%nat * J 0%nat 0%nat + B 1%nat 1%nat * J 1%nat 0%nat + B 1%nat 2%nat * J 2%nat 0%nat) + g2 * (B 2%nat 0%nat * J 0%nat 0%nat + B 2%nat 1%nat * J 1%nat 0%nat + B 2%nat 2%nat * J 2%nat 0%nat)); [ring|]. rewrite H00, H10, H20. ring.
   - rewrite <- (E 1%nat ltac:(lia)). fold g1. transitivity (g0 * (B 0%nat 0%nat * J 0%nat 1%nat + B 0%nat 1%nat * J 1%nat 1%nat + B 0%nat 2%nat * J 2%nat 1%nat) + g1 * (B 1%nat 0%nat * J 0%nat 1%nat + B 1%nat 1%nat * J 1%nat 1%nat + B 1%nat 2%nat * J 2%nat 1%nat) + g2 * (B 2%nat 0%nat * J 0%nat 1%nat + B 2%nat 1%nat * J 1%nat 1%nat + B 2%nat 2%nat * J 2%nat 1%nat)); [ring|]. rewrite H01, H11, H21. ring.
   - rewrite <- (E 2%nat ltac:(lia)). fold g2. transitivity (g0 * (B 0%nat 0%nat * J 0%nat 2%nat + B 0%nat 1%nat * J 1%nat 2%nat + B 0%nat 2%nat * J 2%nat 2%nat) + g1 * (B 1%nat 0%nat * J 0%nat 2%nat + B 1%nat 1%nat * J 1%nat 2%nat + B 1%nat 2%nat * J 2%nat 2%nat) + g2 * (B 2%nat 0%nat * J 0%nat 2%nat + B 2%nat 1%nat * J 1%nat 2%nat + B 2%nat 2%nat * J 2%nat 2%nat)); [ring|]. rewrite H02, H12, H22. ring.
+Qed.
+
+(* ---- Piola maps on GENERAL cells, per class, at every rational reference point X, for every Jacobian J and symmetric
+   second derivatives H of the cell map (C10: the delivered J is the derivative of F; H = d J is symmetric because it is the
+   second derivative of the polynomial map — Piola identity of the generated Q1 maps: cell_maps_piola_ok).
+   W = J phi(X) = det * (delivered value / (orient/|det| * det... sign)), and
+   det^3 * div_global = piola_div_lhs = det^2 * (delivered reference div at X):  div_global(J phi / det) = div_ref(phi) / det ---- *)
+Theorem hdiv_general_cell_divergence2 e : In e all_elements -> e_dim e = 2%nat ->
+  forall v dv, In (BHdiv v dv) (e_basis e) ->
+  forall (J : nat -> nat -> Q) (H : nat -> nat -> nat -> Q) (X : nat -> Q),
+    piola_div_lhs2 J H (fun j => qeval (nthp v j) X) (fun j k => qeval (pderiv k (nthp v j)) X)
+    == det2 J * det2 J * qeval dv X.
+Proof.
+  intros He Hd v dv Hb J H X. rewrite piola_div_general_2d.
+  pose proof (q_deriv_ok_sound e (proj1 (Forall_forall _ _) all_deriv_ok e He) _ Hb) as [_ Hdiv].
+  rewrite Hd in Hdiv. rewrite (Hdiv X). simpl. unfold qeval. ring.
+Qed.
+
+Theorem hdiv_general_cell_divergence3 e : In e all_elements -> e_dim e = 3%nat ->
+  forall v dv, In (BHdiv v dv) (e_basis e) ->
+  forall (J : nat -> nat -> Q) (H : nat -> nat -> nat -> Q) (X : nat -> Q),
+    piola_div_lhs3 J H (fun j => qeval (nthp v j) X) (fun j k => qeval (pderiv k (nthp v j)) X)
+    == det3 J * det3 J * qeval dv X.
+Proof.
+  intros He Hd v dv Hb J H X. rewrite piola_div_general_3d.
+  pose proof (q_deriv_ok_sound e (proj1 (Forall_forall _ _) all_deriv_ok e He) _ Hb) as [_ Hdiv].
+  rewrite Hd in Hdiv. rewrite (Hdiv X). simpl. unfold qeval. ring.
+Qed.
+
+(* covariant map, 2-D classes (ElementTriN1/N2/N3, ElementQuadN1): U = adj(J)^T phi = det * J^-T phi;
+   det^3 * curl_global = piola_curl_lhs2 = det^2 * (delivered reference curl at X) *)
+Theorem hcurl_general_cell_curl2 e : In e all_elements ->
+  forall v cl, In (BHcurl2 v cl) (e_basis e) ->
+  forall (J : nat -> nat -> Q) (H : nat -> nat -> nat -> Q) (X : nat -> Q),
+    piola_curl_lhs2 J H (fun j => qeval (nthp v j) X) (fun j k => qeval (pderiv k (nthp v j)) X)
+    == det2 J * det2 J * qeval cl X.
+Proof.
+  intros He v cl Hb J H X. rewrite piola_curl_general_2d.
+  pose proof (q_deriv_ok_sound e (proj1 (Forall_forall _ _) all_deriv_ok e He) _ Hb) as [_ [_ Hc]].
+  rewrite (Hc X). unfold qeval. ring.
 Qed.
